@@ -6,6 +6,9 @@
 From Coq Require Import ZArith List Bool String.
 From C15 Require Import Gen_VersionTable Version VersionProofs TableCheck PreFix.
 From C15 Require Arr MultiMap MultiMapProofs Table TableProofs.
+From MomoCommon Require Import GenPrelude.
+From C15 Require Gen_VersionKeeper Gen_ArrayIndexIterator Gen_ArrayShifter Gen_ArrayGuards Gen_MultiMapGuards Gen_SelectionGuards
+  Gen_TableGuards Gen_TreeIterator GuardProofs.
 Import ListNotations.
 
 (* A handle (iterator / position) whose version snapshot differs from the current version of the container it was
@@ -395,3 +398,119 @@ Theorem C15_dt_fresh_selection_accepted :
     exists v, Table.tstep s (Table.TSelSum i) = (s, Table.TAcc (Some v)).
 Proof. exact TableProofs.dt_fresh_selection_accepted. Qed.
 Print Assumptions C15_dt_fresh_selection_accepted.
+
+(* ================= Round 5: theorems about the REAL guard expressions (cxx2coq-regenerated from /repo on every run) =================
+   Each Gen_* function is the prefix of the C++ function up to and including its MOMO_CHECKs, in exception mode (checkMode = 2);
+   Exn = the exception is thrown BEFORE the first write of the function ("a rejected call never reaches a write"), arithmetic is the
+   real 64-bit arithmetic. *)
+(* ArrayShifter::Remove (Array::Remove, SegmentedArray::Remove) and DataSelection::Remove(index, count): accepted exactly when the
+   MATHEMATICAL index + count is within the size, for all 64-bit arguments (no overflow hole; fix bcbf078) *)
+Theorem C15_gen_remove_guard_exact :
+  forall cnt index count, GuardProofs.U64 cnt -> GuardProofs.U64 index -> GuardProofs.U64 count ->
+    Gen_ArrayShifter.Remove_guard cnt index count = if (index + count <=? cnt)%Z then Ok cnt else Exn.
+Proof. exact GuardProofs.remove_guard_exact. Qed.
+Print Assumptions C15_gen_remove_guard_exact.
+Theorem C15_gen_selection_remove_guard_exact :
+  forall cnt index count, GuardProofs.U64 cnt -> GuardProofs.U64 index -> GuardProofs.U64 count ->
+    Gen_SelectionGuards.SelRemove_guard cnt index count = if (index + count <=? cnt)%Z then Ok tt else Exn.
+Proof. exact GuardProofs.selection_remove_guard_exact. Qed.
+Print Assumptions C15_gen_selection_remove_guard_exact.
+(* Array::Insert(index, count, item): a count with size + count > SIZE_MAX is refused before anything is touched (fix c5d1be1) *)
+Theorem C15_gen_insertn_guard_exact :
+  forall cnt index count, GuardProofs.U64 cnt -> GuardProofs.U64 count ->
+    Gen_ArrayGuards.InsertN_guard cnt index count = if (cnt + count <=? 2 ^ 64 - 1)%Z then Ok (cnt + count)%Z else Exn.
+Proof. exact GuardProofs.insertn_guard_exact. Qed.
+Print Assumptions C15_gen_insertn_guard_exact.
+(* HashMultiMap::Remove(keyIter, valueIndex): valueIndex >= count (count itself included) is rejected *)
+Theorem C15_gen_mm_remove_value_index_guard_exact :
+  forall cnt i, Gen_MultiMapGuards.RemoveKI_guard cnt i = if (i <? cnt)%Z then Ok tt else Exn.
+Proof. exact GuardProofs.mm_remove_value_index_guard_exact. Qed.
+Print Assumptions C15_gen_mm_remove_value_index_guard_exact.
+(* operator[] of Array, RemoveBack, DataTable row numbers (operator[], Update(rowNumber,row): <; Insert: <=), selection operator[] *)
+Theorem C15_gen_index_guard_exact :
+  forall cnt i, Gen_ArrayGuards.Index_guard cnt i = if (i <? cnt)%Z then Ok tt else Exn.
+Proof. exact GuardProofs.index_guard_exact. Qed.
+Print Assumptions C15_gen_index_guard_exact.
+Theorem C15_gen_removeback_guard_exact :
+  forall cnt n, Gen_ArrayGuards.RemoveBack_guard cnt n = if (n <=? cnt)%Z then Ok tt else Exn.
+Proof. exact GuardProofs.removeback_guard_exact. Qed.
+Print Assumptions C15_gen_removeback_guard_exact.
+Theorem C15_gen_table_guards_exact :
+  forall cnt i,
+    Gen_TableGuards.Row_guard cnt i = (if (i <? cnt)%Z then Ok tt else Exn) /\
+    Gen_TableGuards.TryUpdateNum_guard cnt i = (if (i <? cnt)%Z then Ok tt else Exn) /\
+    Gen_TableGuards.TryInsert_guard cnt i = (if (i <=? cnt)%Z then Ok tt else Exn) /\
+    Gen_SelectionGuards.SelIndex_guard cnt i = (if (i <? cnt)%Z then Ok tt else Exn).
+Proof. exact GuardProofs.table_guards_exact. Qed.
+Print Assumptions C15_gen_table_guards_exact.
+(* ArrayIndexIterator::operator+= with the real size_t / ptrdiff_t conversions: accepted exactly when index + diff stays in [0, count];
+   it is the only writer of mIndex and whatever it writes is in range (frame); operator-> needs an attached iterator below the count *)
+Theorem C15_gen_arrit_advance_exact :
+  forall (count_of : Z -> Z) mArray mIndex diff,
+    mArray <> 0%Z -> (0 <= mIndex <= count_of mArray)%Z -> (count_of mArray < 2 ^ 63)%Z -> (- 2 ^ 63 <= diff < 2 ^ 63)%Z ->
+    Gen_ArrayIndexIterator.op_add_assign count_of mArray mIndex diff =
+      if ((0 <=? mIndex + diff) && (mIndex + diff <=? count_of mArray))%Z then Ok (tt, (mIndex + diff)%Z) else Exn.
+Proof. exact GuardProofs.arrit_advance_exact. Qed.
+Print Assumptions C15_gen_arrit_advance_exact.
+Theorem C15_gen_arrit_advance_preserves_range :
+  forall (count_of : Z -> Z) mArray mIndex diff i',
+    mArray <> 0%Z -> Gen_ArrayIndexIterator.op_add_assign count_of mArray mIndex diff = Ok (tt, i') -> (0 <= i' <= count_of mArray)%Z.
+Proof. exact GuardProofs.arrit_advance_preserves_range. Qed.
+Print Assumptions C15_gen_arrit_advance_preserves_range.
+Theorem C15_gen_arrit_deref_exact :
+  forall (count_of : Z -> Z) mArray mIndex,
+    Gen_ArrayIndexIterator.op_arrow count_of mArray mIndex = if (negb (mArray =? 0) && (mIndex <? count_of mArray))%Z then Ok tt else Exn.
+Proof. exact GuardProofs.arrit_deref_exact. Qed.
+Print Assumptions C15_gen_arrit_deref_exact.
+(* refinement: the hand model's AAdvance (Arr.v) IS the generated operator+= for an iterator of the array *)
+Theorem C15_arr_model_advance_is_generated :
+  forall s slot d,
+    Arr.aid (Arr.ahs s slot) = Some 0%nat -> (0 <= Arr.aidx (Arr.ahs s slot) <= Arr.cnt s)%Z -> (Arr.cnt s < 2 ^ 63)%Z -> (- 2 ^ 63 <= d < 2 ^ 63)%Z ->
+    match Gen_ArrayIndexIterator.op_add_assign (fun _ => Arr.cnt s) 1%Z (Arr.aidx (Arr.ahs s slot)) d with
+    | Ok (_, i') => Arr.astep s (Arr.AAdvance slot d) = (Arr.aset s slot (Arr.mkAH (Some 0%nat) i'), Arr.AAcc None)
+    | Exn => Arr.astep s (Arr.AAdvance slot d) = (s, Arr.ARej)
+    | _ => False
+    end.
+Proof. exact GuardProofs.arr_model_advance_is_generated. Qed.
+Print Assumptions C15_arr_model_advance_is_generated.
+(* TreeSetConstIterator::operator++ / operator->: accepted only with a node and an index BELOW the node's count, for leaf and internal
+   nodes alike (fix ed8da09); both operators share one guard *)
+Theorem C15_gen_tree_inc_guard_exact :
+  forall (node_count : Z -> Z) mNode idx,
+    Gen_TreeIterator.Inc_guard node_count mNode idx = if (negb (mNode =? 0) && (idx <? node_count mNode))%Z then Ok tt else Exn.
+Proof. exact GuardProofs.tree_inc_guard_exact. Qed.
+Print Assumptions C15_gen_tree_inc_guard_exact.
+Theorem C15_gen_tree_inc_arrow_same_code : Gen_TreeIterator.Inc_guard = Gen_TreeIterator.Arrow_guard.
+Proof. exact GuardProofs.tree_inc_arrow_same_code. Qed.
+Print Assumptions C15_gen_tree_inc_arrow_same_code.
+(* VersionKeeper::Check() and Check(version, allowEmpty) ARE the hand model's chk_self / chk_cont on the abstraction
+   "the version cell of crew cr is at address cr + 1 and holds the crew's current version": so the model's "accepted handle is current"
+   theorems are statements about the real comparison `mContainerVersion != nullptr && *mContainerVersion == mVersion` *)
+Theorem C15_keeper_check_self_is_model :
+  forall s h, Gen_VersionKeeper.Check_self (GuardProofs.mem_of s) (GuardProofs.ptr_of h) (Z.of_nat (hsnap h)) = if chk_self s h then Ok tt else Exn.
+Proof. exact GuardProofs.keeper_check_self_is_model. Qed.
+Print Assumptions C15_keeper_check_self_is_model.
+Theorem C15_keeper_check_cont_is_model :
+  forall s c h allowEmpty, Inv s ->
+    Gen_VersionKeeper.Check_cont (GuardProofs.mem_of s) (GuardProofs.ptr_of h) (Z.of_nat (hsnap h)) (GuardProofs.addr (crew (getc s c))) allowEmpty =
+      if chk_cont (getc s c) h allowEmpty then Ok tt else Exn.
+Proof. exact GuardProofs.keeper_check_cont_is_model. Qed.
+Print Assumptions C15_keeper_check_cont_is_model.
+Theorem C15_keeper_checks_never_stuck :
+  forall (mem : Z -> Z) p snap q allowEmpty,
+    Gen_VersionKeeper.Check_self mem p snap <> Stuck /\ (q <> 0%Z -> Gen_VersionKeeper.Check_cont mem p snap q allowEmpty <> Stuck).
+Proof. exact GuardProofs.keeper_checks_never_stuck. Qed.
+Print Assumptions C15_keeper_checks_never_stuck.
+(* same code: the selection's range guard is the shifter's; all "index < count" guards are one expression *)
+Theorem C15_gen_selection_remove_same_guard :
+  forall cnt index count,
+    Gen_SelectionGuards.SelRemove_guard cnt index count =
+      match Gen_ArrayShifter.Remove_guard cnt index count with Ok _ => Ok tt | Stuck => Stuck | Fuel => Fuel | Exn => Exn end.
+Proof. exact GuardProofs.selection_remove_same_guard. Qed.
+Print Assumptions C15_gen_selection_remove_same_guard.
+Theorem C15_gen_index_guards_same_code :
+  forall cnt i,
+    Gen_ArrayGuards.Index_guard cnt i = Gen_TableGuards.Row_guard cnt i /\ Gen_TableGuards.Row_guard cnt i = Gen_TableGuards.TryUpdateNum_guard cnt i /\
+    Gen_TableGuards.Row_guard cnt i = Gen_SelectionGuards.SelIndex_guard cnt i /\ Gen_TableGuards.Row_guard cnt i = Gen_MultiMapGuards.RemoveKI_guard cnt i.
+Proof. exact GuardProofs.index_guards_same_code. Qed.
+Print Assumptions C15_gen_index_guards_same_code.
